@@ -145,3 +145,20 @@ Definition reg_ranked (rank : bstr -> nat) (reg : registry) : bool :=
   forallb (template_ranked rank) (r_templates reg).
 Definition reg_height (reg : registry) : nat :=
   fold_right (fun t acc => Nat.max (tree_height (t_node t)) acc) 0%nat (r_templates reg).
+
+(* ------------------------------------------------------------------ *)
+(* recursive bundles: "recursion restricted to data-bounded depth".
+   [run_depth_le cf d n st]: the run of the walker on [n] from [st] never nests
+   {call}s more than [d] deep below its start -- stated with the capped walker of
+   Model/InterpSafety.v: under SOME budget the walker that refuses call depth
+   d+1 finishes with an answer that is neither "budget exhausted" nor "cap hit".
+   (The choice of the budget does not matter: Proofs/SafetyDepth.v
+   walk_cap_fuel_monotone.)  The quantitative statement of C06 is then:
+   run_depth_le cf d n st  ->  fuel >= reg_height * (d + 1)  ->  walk answers. *)
+From Soy Require Import Model.Escape Model.Directives Model.Print Model.Interp Model.InterpSafety.
+
+Definition is_answer {A} (o : outcome A) : Prop :=
+  o <> OutOfFuel /\ o <> Err e_capped.
+
+Definition run_depth_le (cf : cfg) (d : nat) (n : node) (st : mstate) : Prop :=
+  exists f, is_answer (fst (walk_cap cf d f n st)).
